@@ -40,6 +40,8 @@ Definition s_inf : bytes := Eval vm_compute in bs "inf".
 Definition s_got : bytes := Eval vm_compute in bs "format error: got ".
 Definition s_expected_n : bytes := Eval vm_compute in bs " args, expected ".
 Definition s_fmterr : bytes := Eval vm_compute in bs "format error: ".
+Definition s_bigint : bytes := Eval vm_compute in bs "*big.Int".
+Definition s_nonfinite : bytes := Eval vm_compute in bs "interp.nonFinite".
 
 Definition is_digit (c : Z) : bool := (48 <=? c) && (c <=? 57).
 
@@ -51,7 +53,7 @@ Definition is_fmtch (c : Z) : bool :=
 (* functions.go parseFmtTypes                                          *)
 (* ------------------------------------------------------------------ *)
 
-Inductive ty : Type := TyS | TyD | TyU | TyF | TyC.
+Inductive ty : Type := TyS | TyD | TyU | TyF | TyC | TyP.   (* TyP: a precision given as '*' *)
 
 (* the switch on the conversion byte: rewritten byte and argument type *)
 Definition verb_info (c : Z) : option (Z * ty) :=
@@ -71,32 +73,64 @@ Definition err_expected : bytes := s_expected.
 (* Go renders the offending byte with %q; the model keeps the raw byte *)
 Definition err_invalid (c : Z) : bytes := s_invalid ++ [c].
 
-(* scanner state: literal text / just after '%' / inside the flag run *)
-Inductive pmode : Type := PLit | PPct | PFlags.
+(* strings.IndexByte(" -+#0", c) >= 0 *)
+Definition is_flagch (c : Z) : bool :=
+  (c =? 32) || (c =? 45) || (c =? 43) || (c =? 35) || (c =? 48).
 
-Definition cons_out (c : Z) (tys : list ty) (r : res (bytes * list ty)) : res (bytes * list ty) :=
+(* Where the scanner is inside  %[flags][width][.precision]type :
+   literal text / just after '%' / in the flags / in a literal width / after a
+   '*' width / just after the '.' / in a literal precision / after a '*'
+   precision.  (The Go code is a sequence of loops over the same positions; it
+   appends the translated directive when it reaches the type, the model emits
+   the bytes as it goes: the result is the same string.) *)
+Inductive pmode : Type := PLit | PPct | PFlags | PWidth | PWidthDone | PDot | PPrec | PPrecDone.
+
+Definition has_prec (m : pmode) : bool :=
+  match m with PDot | PPrec | PPrecDone => true | _ => false end.
+
+Definition pres : Type := (bytes * list ty * list Z)%type.
+
+Definition cons_out (c : Z) (tys : list ty) (sts : list Z) (r : res pres) : res pres :=
   match r with
-  | Ok (o, ts) => Ok (c :: o, tys ++ ts)
+  | Ok (o, ts, st) => Ok (c :: o, tys ++ ts, sts ++ st)
   | Err m => Err m | Panic => Panic | Unmod => Unmod
   end.
 
-Fixpoint pft (m : pmode) (s : bytes) : res (bytes * list ty) :=
+(* [pos]: number of bytes of the translated format before this point *)
+Fixpoint pft (m : pmode) (pos : Z) (s : bytes) : res pres :=
   match s with
-  | [] => match m with PLit => Ok ([], []) | _ => Err err_expected end
+  | [] => match m with PLit => Ok ([], [], []) | _ => Err err_expected end
   | c :: t =>
+    (* the conversion character: rewritten; g and G without precision get C's default .6 *)
+    let verb :=
+      match verb_info c with
+      | Some (c', t') =>
+          if ((c' =? 103) || (c' =? 71)) && negb (has_prec m)
+          then cons_out 46 [] [] (cons_out 54 [] [] (cons_out c' [t'] [] (pft PLit (pos + 3) t)))
+          else cons_out c' [t'] [] (pft PLit (pos + 1) t)
+      | None => Err (err_invalid c)
+      end in
+    let next m' := cons_out c [] [] (pft m' (pos + 1) t) in
     match m with
-    | PLit => if c =? 37 then cons_out c [] (pft PPct t) else cons_out c [] (pft PLit t)
-    | _ =>
-      if (match m with PPct => c =? 37 | _ => false end) then cons_out c [] (pft PLit t)
-      else if is_fmtch c then cons_out c (if c =? 42 then [TyD] else []) (pft PFlags t)
-      else match verb_info c with
-           | Some (c', t') => cons_out c' [t'] (pft PLit t)
-           | None => Err (err_invalid c)
-           end
+    | PLit => if c =? 37 then next PPct else next PLit
+    | PPct | PFlags =>
+        if (match m with PPct => c =? 37 | _ => false end) then next PLit
+        else if is_flagch c then next PFlags
+        else if c =? 42 then cons_out c [TyD] [] (pft PWidthDone (pos + 1) t)
+        else if is_digit c then next PWidth
+        else if c =? 46 then next PDot
+        else verb
+    | PWidth => if is_digit c then next PWidth else if c =? 46 then next PDot else verb
+    | PWidthDone => if c =? 46 then next PDot else verb
+    | PDot => if c =? 42 then cons_out c [TyP] [pos - 1] (pft PPrecDone (pos + 1) t)
+              else if is_digit c then next PPrec else verb
+    | PPrec => if is_digit c then next PPrec else verb
+    | PPrecDone => verb
     end
   end.
 
-Definition parse_fmt_types (s : bytes) : res (bytes * list ty) := pft PLit s.
+(* translated format, argument types, and for each TyP the offset of its ".*" *)
+Definition parse_fmt_types (s : bytes) : res pres := pft PLit 0 s.
 
 (* ------------------------------------------------------------------ *)
 (* Go fmt: formatter state and primitives (fmt/format.go)              *)
@@ -214,12 +248,15 @@ Inductive garg : Type :=
 | GUint (v : Z)        (* uint64 *)
 | GStr (s : bytes)     (* string *)
 | GBytes (s : bytes)   (* []byte *)
-| GFloat (x : fnum).   (* float64 *)
+| GFloat (x : fnum)    (* float64 *)
+| GBig (v : Z)         (* *big.Int *)
+| GNonFinite (x : fnum). (* interp.nonFinite: an infinity or NaN with its own Format method *)
 
 Definition type_name (a : garg) : bytes :=
   match a with
   | GInt _ => s_int64 | GUint _ => s_uint64 | GStr _ => s_string
   | GBytes _ => s_bytes_t | GFloat _ => s_float64
+  | GBig _ => s_bigint | GNonFinite _ => s_nonfinite
   end.
 
 (* pp.fmtInteger: the verbs that are valid for integers (among those that can
@@ -248,6 +285,42 @@ Definition byte_elem (f : fmts) (verb : Z) (c : Z) : bytes :=
   | None => bad_verb verb s_uint8 (fmt_integer f c 10 false false)
   end.
 
+(* math/big Int.Format, reached through fmt's Formatter interface: sign, base
+   prefix, zeros from the precision or from the 0 flag, digits; padded to the width *)
+Definition big_format (f : fmts) (v : Z) (base : Z) (upper : bool) : bytes :=
+  let sign := if v <? 0 then [45] else if fplus f then [43] else if fspace f then [32] else [] in
+  let prefix := if fsharp f
+                then (if base =? 8 then [48] else if base =? 16 then [48; if upper then 88 else 120] else [])
+                else [] in
+  let digits := digits_of base (Z.abs v) upper in
+  if precP f && negb (zlen digits <? prec f) && (v =? 0) && (prec f =? 0) then []
+  else
+    let zeros := if precP f && (zlen digits <? prec f) then prec f - zlen digits else 0 in
+    let length := zlen sign + zlen prefix + zeros + zlen digits in
+    let d := wid f - length in
+    if widP f && (length <? wid f) then
+      if fminus f then sign ++ prefix ++ padding zeros 48 ++ digits ++ padding d 32
+      else if fzero f && negb (precP f) then sign ++ prefix ++ padding d 48 ++ digits
+      else padding d 32 ++ sign ++ prefix ++ padding zeros 48 ++ digits
+    else sign ++ prefix ++ padding zeros 48 ++ digits.
+
+(* interp.nonFinite.Format (functions.go): inf / nan, upper case for E G X, a sign
+   for -inf or when + / space ask for one, padded with spaces to the width *)
+Definition nf_format (f : fmts) (x : fnum) (verb : Z) : bytes :=
+  let upper := (verb =? 69) || (verb =? 71) || (verb =? 88) in
+  let word := match x with
+              | FInf _ => if upper then [73; 78; 70] else [105; 110; 102]
+              | _ => if upper then [78; 65; 78] else [110; 97; 110]
+              end in
+  let sign := match x with
+              | FInf true => [45]
+              | _ => if fplus f then [43] else if fspace f then [32] else []
+              end in
+  let s := sign ++ word in
+  if widP f && (wid f >? zlen s) then
+    (if fminus f then s ++ padding (wid f - zlen s) 32 else padding (wid f - zlen s) 32 ++ s)
+  else s.
+
 Definition print_arg (f : fmts) (a : garg) (verb : Z) : res bytes :=
   match a with
   | GInt v => Ok (match int_verb f v true verb with
@@ -269,6 +342,13 @@ Definition print_arg (f : fmts) (a : garg) (verb : Z) : res bytes :=
           else if verb =? 88 then fmt_sbx f s true
           else s_lbrk ++ join [32] (List.map (byte_elem f verb) s) ++ s_rbrk)
   | GFloat _ => Unmod
+  | GBig v =>
+      if (verb =? 100) || (verb =? 118) || (verb =? 115) then Ok (big_format f v 10 false)
+      else if verb =? 111 then Ok (big_format f v 8 false)
+      else if verb =? 120 then Ok (big_format f v 16 false)
+      else if verb =? 88 then Ok (big_format f v 16 true)
+      else Unmod
+  | GNonFinite x => Ok (nf_format f x verb)
   end.
 
 (* ------------------------------------------------------------------ *)
@@ -508,22 +588,61 @@ Definition conv_c (chars : bool) (ffmt : fnum -> res bytes) (a : value) : res by
 Definition conv_arg (chars : bool) (ffmt : fnum -> res bytes) (t : ty) (a : value) : res garg :=
   match t with
   | TyS => do s <- v_str ffmt a; Ok (GStr s)
-  | TyD => Ok (GInt (f2i64 (v_num a)))
-  | TyF => Ok (GFloat (v_num a))
-  | TyU => Ok (GUint (i64_to_u64 (f2i64 (v_num a))))
+  | TyD | TyP =>
+      (* n >= 1<<63 || n < -1<<63, not infinite: big.NewFloat(n).Int(nil); else int64(n).
+         (the comparisons are made on the truncation: the same for every double) *)
+      Ok (match v_num a with
+          | FFin m e => let t := ftrunc m e in
+                        if (two63 <=? t) || (t <? - two63) then GBig t else GInt (f2i64 (FFin m e))
+          | x => GInt (f2i64 x)
+          end)
+  | TyF => Ok (match v_num a with FFin m e => GFloat (FFin m e) | x => GNonFinite x end)
+  | TyU =>
+      (* toUint64: the upper half of the uint64 range directly, everything else through int64 *)
+      Ok (match v_num a with
+          | FFin m e => let t := ftrunc m e in
+                        if (two63 <=? t) && (t <? two64) then GUint t else GUint (i64_to_u64 (f2i64 (FFin m e)))
+          | x => GUint (i64_to_u64 (f2i64 x))
+          end)
   | TyC => do c <- conv_c chars ffmt a; Ok (GBytes c)
   end.
 
-(* for i, t := range types { a := args[i] ... } *)
+Definition cons_arg (g : garg) (r : res (bytes * list garg)) : res (bytes * list garg) :=
+  match r with
+  | Ok (fm, gs) => Ok (fm, g :: gs)
+  | Err m => Err m | Panic => Panic | Unmod => Unmod
+  end.
+
+(* for i, t := range types { a := args[i] ... }: the converted arguments and the
+   format, from which the ".*" of a negative '*' precision has been removed
+   ([removed] bytes so far; [stars] the offsets still to come) *)
 Fixpoint conv_args (chars : bool) (ffmt : fnum -> res bytes) (types : list ty) (args : list value) (i : Z)
-  : res (list garg) :=
+  (format : bytes) (stars : list Z) (removed : Z) : res (bytes * list garg) :=
   match types with
-  | [] => Ok []
+  | [] => Ok (format, [])
   | t :: ts =>
       do a <- index args i;
-      do g <- conv_arg chars ffmt t a;
-      do gs <- conv_args chars ffmt ts args (i + 1);
-      Ok (g :: gs)
+      match t with
+      | TyP =>
+          let n := f2i64 (v_num a) in
+          match stars with
+          | [] => Panic                                     (* stars[0] *)
+          | off :: stars' =>
+              if n <? 0 then
+                match ts with
+                | [] => Panic                               (* types[i+1] *)
+                | TyF :: _ => cons_arg (GInt 6) (conv_args chars ffmt ts args (i + 1) format stars' removed)
+                | _ =>
+                    do f1 <- slice format 0 (off - removed);
+                    do f2 <- slice format (off - removed + 2) (zlen format);
+                    conv_args chars ffmt ts args (i + 1) (f1 ++ f2) stars' (removed + 2)
+                end
+              else cons_arg (GInt n) (conv_args chars ffmt ts args (i + 1) format stars' removed)
+          end
+      | _ =>
+          do g <- conv_arg chars ffmt t a;
+          cons_arg g (conv_args chars ffmt ts args (i + 1) format stars removed)
+      end
   end.
 
 Definition err_args (got want : Z) : bytes :=
@@ -532,9 +651,9 @@ Definition err_args (got want : Z) : bytes :=
 (* functions.go sprintf *)
 Definition sprintf (chars : bool) (ffmt : fnum -> res bytes) (format : bytes) (args : list value) : res bytes :=
   match parse_fmt_types format with
-  | Ok (gofmt, types) =>
+  | Ok (gofmt, types, stars) =>
       if zlen types >? zlen args then Err (err_args (zlen args) (zlen types))
-      else do conv <- conv_args chars ffmt types args 0; go_sprintf gofmt conv
+      else do fc <- conv_args chars ffmt types args 0 gofmt stars 0; go_sprintf (fst fc) (snd fc)
   | Err m => Err (s_fmterr ++ m)
   | Panic => Panic
   | Unmod => Unmod
